@@ -22,7 +22,7 @@ LEVEL = 'exploration'
 STEP_UNIT = ('pre-emption points: line events inside DocumentTemplate / '
              'TreeDisplay / RestrictedPython.Eval, plus call-back yields')
 CASE_TIMEOUT = 600
-TIERS = {'quick': (900, 170), 'thorough': (40000, 2400)}
+TIERS = {'quick': (800, 170), 'thorough': (40000, 2400)}
 PROBES = ['compile_race_second_thread_blocked_on_cooklock',
           'preempted_inside_cook', 'preempted_inside_render',
           'three_threads', 'precooked_template', 'restricted_eval_variant',
@@ -49,7 +49,9 @@ RULE = ('templates: generator-A programs over every block tag (per-thread '
         'thread\'s solo profile (without replacement), two pre-emptions, '
         'PCT with 1-3 change points, random walks with switch probability '
         '0.5 .. 0.005, write-biased.  An evaluation is one schedule '
-        'executed.  Non-trivial: a schedule in which at least one '
+        'executed; after every schedule each call is made once more on '
+        'the same template, one at a time, and must still give the solo '
+        'result.  Non-trivial: a schedule in which at least one '
         'pre-emption happened while the pre-empted thread was inside the '
         'package (not at its start or end); distinct = distinct '
         '(case hash, switch list).')
@@ -463,7 +465,24 @@ def run_schedule(case, policy, cap, track_writes=False):
     sim = S.Sim(fns, policy, cap, opcode=case['opcode'])
     sim.track_writes = track_writes
     sim.run()
+    sim.fns = fns
     return sim
+
+
+def after_race(case, sim, expected):
+    """the fully serialised interleaving that follows every schedule: once
+    all threads are done, each call is made once more on the same shared
+    template, one at a time; it must still give what it gives alone"""
+    for i, fn in enumerate(sim.fns):
+        try:
+            got = fn()
+        except BaseException as e:     # noqa: B902  (reported, not raised)
+            got = ['raise-base', type(e).__name__, str(e)[:200]]
+        if got != expected[i]:
+            return [{'rule': 'after_race', 'key': 'after_race:result',
+                     'detail': {'thread': i, 'got': got,
+                                'alone': expected[i]}}]
+    return []
 
 
 def solo(case):
@@ -566,6 +585,9 @@ def _run_case(case):
         evaluations += 1
         steps += sim.steps
         vs = judge(case, sim, expected)
+        if not vs and not sim.abort:
+            vs = after_race(case, sim, expected)
+            steps += 1
         segs = sim.segments()
         dg.update(repr((name, segs, [th.outcome and th.outcome[0]
                                      for th in sim.th])).encode())
